@@ -6,6 +6,33 @@ BASELINE = ("cd /repo && cargo nextest run --workspace --no-fail-fast --tool-con
             "--profile pb --test-threads 8 --offline")
 
 CLAIMED = {
+    'C05': dict(
+        technique='Lean 4 proof: vector-clock (happens-before) ghost state layered on the pc-machine model of the pipeline, ghost '
+                  'invariant preserved by every step of every thread for every schedule, memory orderings taken from the source by '
+                  'a translator (Gen/Orderings.lean) + trace replay of real executions with an executable happens-before oracle',
+        text='Single-producer pipelines, every ring size, stage/handler topology, batch list, spin and blocking wait, every '
+             'schedule: c05_no_lap_reachable (producer writing w, any handler handling i: i < w < i+n, so w mod n != i mod n), '
+             'c05_full_ring_blocks / c05_full_ring_blocks_run (while some last-stage cursor c has c+n < end, no step of any '
+             'thread takes the producer out of its gate loop and nothing is written, along every schedule) and the converse '
+             'c05_gate_opens (once every last-stage cursor has end <= c+n the producer reaches its slot write within ngate+3 '
+             'own steps), c05_race_free_reachable / c05_reader_knows (before every slot access the obligations R1-R4 hold: a '
+             'handler about to handle i knows the producer\'s write of i, every access of i by every handler of every earlier '
+             'stage and everybody\'s access of i-n; the producer about to write w knows everybody\'s access of w-n) with cursor '
+             'stores/loads using Gen.Orderings.seqSet/seqGet regenerated from atomic_sequence_ordered.rs — the only facts used '
+             'are c05_orderings_used (seqSet is Release, seqGet is Acquire, by evaluation), so weakening either in the source '
+             'breaks the obligation; c05_relaxed_store_races / c05_relaxed_load_races (with a Relaxed store or load a concrete '
+             'schedule violates R1: the table is load-bearing); c05_same_stage_unordered (known finding F9: two handlers of one '
+             'stage are not ordered with each other, so the race-freedom theorem claims ordering only against the producer, '
+             'earlier stages and the previous lap, which is the whole property exactly when a stage with a mutable handler holds '
+             'no other handler). Tie: translator for the ordering table + every real trace replayed on the model (MISMATCH, '
+             'orderings of every facade call compared) and judged by the slot-exclusion and vector-clock oracles on the '
+             'implementation\'s own events (SPECFAIL). Partial: the multi-producer sequencer is not modelled (judged by the '
+             'oracles per run only); a happens-before model over an interleaving semantics stands in for full C11 (no stale '
+             'reads of the monotone counters, no compiler reordering of the plain slot accesses beyond what happens-before '
+             'forbids); the mutex/condvar/is_done/spawn edges are deliberately not used in the Lean model (fewer edges, sound '
+             'for race freedom) while the trace oracle does use lock/unlock edges.',
+        note='as C04; additionally Gen/Orderings translator (fail-closed on any change in the number or shape of atomic call sites)',
+        ref='DESIGN.md §7 C05, §5.4'),
     'C10': dict(
         technique='Lean 4 proof over the model of reason_shortest_path_between_causes + proved Floyd–Warshall oracle '
                   '(fw_correct, tabulated form proved equal) validating the path astar returned + differential correspondence run',
